@@ -690,6 +690,11 @@ class Program:
                 if fname.endswith("attrgetter") and not all(isinstance(x, str) for x in a):
                     raise NotConst("attrgetter of a non-string")
                 return (fname, a)          # a getter object (hashable constant): calling it is indexing / attribute access
+            if fname in ("tuple", "list", "frozenset") and len(e.args) == 1 and isinstance(e.args[0], ast.GeneratorExp) and not e.keywords:
+                # tuple(f(x) for x in range(..)): the comprehension, folded
+                lc = ast.ListComp(elt=e.args[0].elt, generators=e.args[0].generators)
+                v_ = self.fold(ast.copy_location(lc, e), m, cls, local, depth + 1)
+                return frozenset(v_) if fname == "frozenset" else tuple(v_)
             if fname == "range" and 1 <= len(e.args) <= 3 and not e.keywords:
                 a = [F(x) for x in e.args]
                 if all(isinstance(x, int) and not isinstance(x, bool) for x in a) and (len(a) < 3 or a[2] != 0):
